@@ -3,7 +3,7 @@ C06, osmocon's host side of the serial link (src/host/osmocon/osmocon.c).  Prope
 Model: `Model/Osmocon.lean` over the sercomm layer of `Model/Sercomm.lean` / `Model/SercommMsgb.lean`;
 lemmas: `Lemmas/Osmocon.lean`; constants regenerated from the tree (`Gen/Osmocon.lean`).
 
-One finding is pinned here (F21 in the report): `handle_sercomm_write` has pulled the octets out of the
+One finding is pinned here (G1 in the report): `handle_sercomm_write` has pulled the octets out of the
 transmitter before it calls `write()`, and a short (or failed) `write()` is only reported — the octets
 the serial device did not take are gone.  The full statement "everything queued reaches the line" is
 kept as `write_lossless_full`, its negation is proved with the witness that is replayed on the real
@@ -39,7 +39,7 @@ theorem write_chunking (t : Tx) (wr : List Nat → Int) :
     (handleSercommWrite t wr).tx = (handleSercommWrite t wrAll).tx :=
   ⟨(hsw_tx t wr).2, hsw_line t wr, (hsw_tx t wr).1, by rw [(hsw_tx t wr).1, (hsw_tx t wrAll).1]⟩
 
-/-- **Complete writes are lossless** (partial: F21).  When every `write()` takes what it is offered, the
+/-- **Complete writes are lossless** (partial: G1).  When every `write()` takes what it is offered, the
 concatenation of the chunks written by `k` calls is exactly the first `k · 256` octets of the pull
 stream — nothing dropped, nothing duplicated, nothing reordered — and the transmitter is where that
 many pulls leave it. -/
@@ -69,7 +69,7 @@ def txOneMsg : Tx := { Tx.init nTxQueues with queues := (Tx.init nTxQueues).queu
 /-- `write()` takes two octets -/
 def wrTwo : List Nat → Int := fun b => min 2 b.length
 
-/-- **F21**: it fails.  One message, frame `7E 05 03 41 7E`; `write()` takes 2 of the 5 octets: the line
+/-- **G1**: it fails.  One message, frame `7E 05 03 41 7E`; `write()` takes 2 of the 5 octets: the line
 has `7E 05`, the transmitter is empty, `03 41 7E` are gone. -/
 theorem write_lossless_full_fails : ¬ write_lossless_full := by
   intro h
